@@ -14,7 +14,12 @@ import (
 // vRedactable returns a symbolic well-formed, line-safe redactable
 // without truncated tail: the class of strings obtainable from the
 // library (C01/C03/C10).  Shapes are those of vFragment.
-func vRedactable(shape int) []byte { return vFragment(shape) }
+func vRedactable(shape int) []byte {
+	if shape == 9 {
+		return []byte("k‹v›")
+	}
+	return vFragment(shape)
+}
 
 type rsField struct{ R redact.RedactableString }
 type rsPriv struct{ r redact.RedactableString }
@@ -66,6 +71,11 @@ func H_c08(p []int) {
 	}
 	if ck >= 2 && strings.Contains(d, "w") {
 		return
+	}
+	if ck == 10 && shape != 9 {
+		// a symbolic map key is not modelled: the key is the concrete
+		// redactable "k‹v›" in this container
+		shape = 9
 	}
 	vSite(fmt.Sprintf("container=%d dir=%q", ck, d))
 	r := vRedactable(shape)
